@@ -1331,13 +1331,56 @@ Definition outs_match (ro : role) (o : list out) (e : expect) : bool :=
   opt_check (e_surface e) (surface_matches (outs_surface o)) &&
   opt_check (e_new e) (fun n => match outs_opened_local ro o with Some m => m =? n | None => false end).
 
+(* Record shapes no history produces - hypotheses of several theorems, checked here at every label of every run (like the
+   Stuck guards): no record stays Idle; a stream whose PUSH_PROMISE is still
+   queued, or that waits for a concurrency slot, is one of ours and has received nothing *)
+Definition wf_shape (ro : role) (sid : N) (r : srec) : bool :=
+  match s_state r with Idle => false | _ => true end &&
+  (if s_ppush r then
+     negb (s_popen r) && is_server ro && is_local_init ro sid &&
+     match s_state r with ReservedLocal | HalfClosedRemote Streaming | Closed _ => true | _ => false end
+   else if s_popen r then
+     is_local_init ro sid &&
+     (if is_server ro
+      then match s_state r with HalfClosedRemote Streaming | Closed _ => true | _ => false end
+      else match s_state r with
+           | Open Streaming AwaitingHeaders | HalfClosedLocal AwaitingHeaders | Closed _ => true
+           | _ => false
+           end)
+   else true).
+
+(* 8.4 / 5.1.1: a PUSH_PROMISE is legal from a server to a client that has not disabled push, and promises a fresh
+   even identifier above all earlier ones *)
+Definition conn_fine (st : conn) (l : label) : bool :=
+  match l with
+  | LRecvPushPromise _ p _ _ =>
+    negb (is_server (c_role st)) && c_push_local st && is_server_init p &&
+    match c_recv_next st with Some n => n <=? p | None => false end
+  | _ => true
+  end.
+
+
+(* next_stream_id has this endpoint's parity *)
+Definition ids_wf (st : conn) : bool :=
+  match c_send_next st with Some id => is_local_init (c_role st) id | None => true end.
+
+(* Idle records do exist for a moment after a connection error (a record inserted for a frame that is then refused with the
+   reset quota exhausted): the shape is only demanded while the connection has no error *)
+Definition shapes_ok (st : conn) : bool :=
+  ids_wf st &&
+  match c_conn_error st with
+  | Some _ => true
+  | None => forallb (fun kr => wf_shape (c_role st) (s_id (snd kr)) (snd kr)) (c_slab st)
+  end.
+
 (* 0 = agreement; otherwise 10 * (index of the label + 1) + reason:
    1 record pre-state differs, 2 identifier bookkeeping differs, 3 outputs differ, 4 model Stuck, 5 model Panic *)
 Fixpoint check_run (st : conn) (i : N) (ls : list (label * expect)) : N :=
   match ls with
   | [] => 0
   | (l, e) :: ls' =>
-    if negb (pre_matches st l (e_rec e)) then 10 * (i + 1) + 1
+    if negb (shapes_ok st) then 10 * (i + 1) + 6
+    else if negb (pre_matches st l (e_rec e)) then 10 * (i + 1) + 1
     else if negb (ids_match st (e_ids e)) then 10 * (i + 1) + 2
     else match step st l with
          | Ok st1 o => if outs_match (c_role st) o e then check_run st1 (i + 1) ls' else 10 * (i + 1) + 3
